@@ -26,6 +26,8 @@ def run(chk):
                      "leaf dimensions come from RelatedDimensions<U> of the operand types; signatures checked separately")
     chk.rule("R0", "every declared relation is well-formed when instantiated for float, double and long double (no clang error located in /repo/include)")
     chk.rule("R1", "operator* / operator/ : dims(result type) = dims(lhs) +/- dims(rhs); operator+/-/+=/-= : all equal")
+    chk.rule("R3", "no implicit conversion between quantity types (every public one-argument constructor is explicit, no conversion functions): "
+                   "the set of operand pairs for which an operator compiles is exactly the declared set checked by R1")
     chk.rule("R2", "the dimension-domain value of every slot a relation computes equals the dimension set of the type it is stored in; all +,-,<,== unify")
     n_rel = 0
     names = set()
@@ -36,6 +38,26 @@ def run(chk):
             chk.violated("R0", "%s|%s" % (short(d["loc"]), T), "%s %s" % (d["msg"], where[:300]), short(d["loc"]))
         if not F.repo_diagnostics():
             chk.holds("R0", "all instantiations <%s>" % T, "%d function bodies instantiated without error" % sum(1 for f in F.fns.values() if "body" in f), "", nontrivial=True)
+        # R3: no implicit conversion from one quantity type to another
+        from .. import quant
+        inv = quant.inventory(F)
+        n_ctor1 = 0
+        for qname_, q in sorted(inv.items()):
+            if q.kind != "quantity":
+                continue
+            for f in F.methods(qname_):
+                if f["kind"] == "conversion" and f.get("access") == "public" and not f.get("explicit"):
+                    chk.violated("R3", f["name"], "implicit conversion function out of a quantity type", short(f["loc"]))
+                if f["kind"] != "ctor" or len(f["params"]) != 1 or f.get("copy_ctor") or f.get("move_ctor") or f.get("access") != "public":
+                    continue
+                n_ctor1 += 1
+                if not f.get("explicit"):
+                    pt = strip_cvref(F.param_types(f)[0]).replace("PhQ::", "")
+                    chk.violated("R3", "%s(%s)" % (f["name"], pt),
+                                 "one-argument constructor is not explicit: a %s converts implicitly to a %s, so operators declared for the latter silently accept the former "
+                                 "and expressions whose operand dimensions do not add up to the result's compile" % (pt, qname_.replace("PhQ::", "")), short(f.get("def_loc", f["loc"])))
+        if not any(o["rule"] == "R3" and o["status"] == "violated" and ("<%s>" % T) in o["instance"] for o in chk.obs):
+            chk.holds("R3", "one-argument constructors <%s>" % T, "%d public one-argument constructors of quantity types are all explicit; no conversion functions" % n_ctor1, "")
         D = dims.DimEnv(F)
         rels = relations.relations(F)
         for r in rels:
